@@ -374,6 +374,16 @@ def run(ctx):
     se = repo.func(f"{SER}:serialize_expr")
     rs = returned_exprs(se.node)
     ctx.check(len(rs) == 1 and norm(rs[0]) == f"str({positional_params(se.node)[0]})", R5, se.key, "expressions stored as str(expr)", "expressions are no longer stored as str(expr)", se)
+    # the writer stores the definitions of the custom gates a circuit uses; the reader resolves a custom gate's name at any
+    # depth of a modifier stack (Control/Dagger/Power/Exponential records recurse into `wrapped_gate` with the same
+    # definition list), so the collector has to look through the modifiers too -- otherwise a custom gate that only occurs
+    # wrapped is serialised without its definition and the record cannot be read back
+    col = repo.func("circuits._circuit:Circuit.collect_custom_gate_definitions")
+    ctx.analysed(col)
+    scope = [col] + [col.module.functions[c.func.id] for c in body_walk(col.node) if isinstance(c, ast.Call) and isinstance(c.func, ast.Name) and c.func.id in col.module.functions]
+    scope += [f.module.functions[c.func.id] for f in list(scope) for c in body_walk(f.node) if isinstance(c, ast.Call) and isinstance(c.func, ast.Name) and c.func.id in f.module.functions]
+    unwraps = any((isinstance(n, ast.Attribute) and n.attr == "wrapped_gate") or (isinstance(n, ast.Call) and dotted(n.func) in ("getattr", "hasattr") and len(n.args) >= 2 and isinstance(n.args[1], ast.Constant) and n.args[1].value == "wrapped_gate") for f in scope for n in body_walk(f.node))
+    ctx.check(unwraps, R2, col.key + ":through-wrappers", "custom gate definitions are collected through modifier wrappers", "collect_custom_gate_definitions only recognises a custom gate applied directly: a custom gate under controlled/dagger/power/exp is serialised without its definition, and circuit_from_dict then raises 'Custom gate definition ... missing'", col)
     ctx.floor("C05-D1", 40)
     ctx.floor("C05-D2", 14)
     ctx.floor("C05-D3", 10)
